@@ -180,6 +180,11 @@ def _rise_coeffs(t) -> set:
             return
         if x[0] == "cmp":
             in_cmp = True
+        if in_cmp and x[0] == "mul" and len(x) == 3 and sym.is_num(x[1]) and isinstance(x[2], tuple) and x[2][0] == "ifexp":
+            # c * (a if cond else b): the coefficient applies to both alternatives
+            walk(("mul", x[1], x[2][2]), True)
+            walk(("mul", x[1], x[2][3]), True)
+            return
         if in_cmp and x[0] == "mul" and any(y[0] == "attr" and y[2] == "rise_time" for y in x[1:] if isinstance(y, tuple)):
             out.add(x[1][1] if sym.is_num(x[1]) else 1)
             return
